@@ -1551,6 +1551,10 @@ TIE_GRIDITEM = ["TieGridItem." + t for t in (
 # Props/TieGridItem2.lean: minimum_contribution[_cached] in interaction form
 TIE_GRIDITEM += ["TieGridItem." + t for t in (
     "toGM_pure toGM_ofExcept_ok toGM_bind ofExcept_ok_bind or_isSome_eq minimum_contribution_eq minimum_contribution_cached_eq").split()]
+# Props/TieGridItem3.lean: determine_if_item_crosses_flexible_or_intrinsic_tracks (track_sizing.rs) against GridModel.determineCrossings
+TIE_GRIDITEM += ["TieGridItem." + t for t in (
+    "index_eq index_err range_any_go range_any_eq range_any_go_ok range_any_ok bind_ok_inv determine_crossings_eq "
+    "determine_crossings_ok").split()]
 TIE_SLICES_TRUSTED = ("tier T (grid track initialisation): Generated/{TrackFns,GridInit}.lean are translated from src/style/grid.rs, "
                       "src/geometry.rs (AbsoluteAxis, Size::get_abs), src/compute/grid/types/{grid_track,grid_track_counts}.rs and "
                       "src/compute/grid/explicit_grid.rs on every run (verif/extract/src/{slices,gridinit}.rs, my code): u16 + - *, usize - % "
@@ -1585,8 +1589,8 @@ def _add_tie_slices(pid):
     c = PROPS[pid]
     for module, theorems in (("TaffyVerif.Props.TieTrackFns", TIE_TRACKFNS), ("TaffyVerif.Props.TieGridInit", TIE_GRIDINIT),
                              ("TaffyVerif.Props.TieTracks", TIE_TRACKS), ("TaffyVerif.Props.TieTracks2", TIE_TRACKS2),
-                             ("TaffyVerif.Props.TieTracks3", TIE_TRACKS3), ("TaffyVerif.Props.TieGridItem2", TIE_GRIDITEM)):
-        if pid == "C03" and module == "TaffyVerif.Props.TieGridItem2":
+                             ("TaffyVerif.Props.TieTracks3", TIE_TRACKS3), ("TaffyVerif.Props.TieGridItem3", TIE_GRIDITEM)):
+        if pid == "C03" and module == "TaffyVerif.Props.TieGridItem3":
             continue
         if pid == "C12" and module in ("TaffyVerif.Props.TieTracks2", "TaffyVerif.Props.TieTracks3"):
             continue
@@ -1599,8 +1603,8 @@ def _add_tie_slices(pid):
 for _pid in ("C09", "C03", "C04", "C12"):
     _add_tie_slices(_pid)
 # grid_item.rs is also part of C06's tier T (the measure_child_size queries of the grid items)
-if "TaffyVerif.Props.TieGridItem2" not in PROPS["C06"]["modules"]:
-    PROPS["C06"]["modules"] = list(PROPS["C06"]["modules"]) + ["TaffyVerif.Props.TieGridItem2"]
+if "TaffyVerif.Props.TieGridItem3" not in PROPS["C06"]["modules"]:
+    PROPS["C06"]["modules"] = list(PROPS["C06"]["modules"]) + ["TaffyVerif.Props.TieGridItem3"]
     PROPS["C06"]["theorems"] = list(PROPS["C06"]["theorems"]) + [t for t in TIE_GRIDITEM if t not in PROPS["C06"]["theorems"]]
 
 # Tier T for TaffyTree's structural methods (src/tree/taffy_tree.rs): every statement of every structural method is translated from
@@ -1901,7 +1905,7 @@ TIE_WHAT = {
     "TieGridInit": "grid/explicit_grid.rs in full", "TieTracks": "track_sizing.rs: initialisation, find_size_of_fr, stretch_auto_tracks, flush",
     "TieTracks2": "track_sizing.rs: distribute_space_up_to_limits, maximise_tracks, distribute_item_space_to_*",
     "TieTracks3": "track_sizing.rs: expand_flexible_tracks (interaction form)",
-    "TieGridItem2": "grid/types/grid_item.rs: struct GridItem, every method of GridItem (the tree-calling ones in interaction form; Props/TieGridItem.lean + TieGridItem2.lean)", "TiePlacement": "grid/placement.rs placement functions, CellOccupancyMatrix",
+    "TieGridItem3": "grid/types/grid_item.rs: struct GridItem, every method of GridItem (the tree-calling ones in interaction form), track_sizing.rs: determine_if_item_crosses_flexible_or_intrinsic_tracks (Props/TieGridItem.lean + TieGridItem2.lean + TieGridItem3.lean)", "TiePlacement": "grid/placement.rs placement functions, CellOccupancyMatrix",
 }
 for _pid, _c in PROPS.items():
     _ties = [m.split(".")[-1] for m in _c.get("modules", []) if m.split(".")[-1].startswith("Tie")]
